@@ -5,7 +5,7 @@ SPEC = {
     "translators": ["gen_hostfns"],
     "bins": ["c05"],
     "model_targets": ["Cond/HostCheck.vo"],
-    "proof_targets": ["Cond/HostModelProofs.vo", "Cond/TrapsProofs.vo"],
+    "proof_targets": ["Cond/HostModelProofs.vo", "Cond/TrapsProofs.vo", "Cond/StrModelProofs.vo"],
     "assumptions": [
         "PARTIAL CLAIM: memory safety of unsafe code (get_unchecked, raw WASM memory), stack depth and allocation bounds are OBSERVED in child processes "
         "(RLIMIT_AS 8 GiB, RLIMIT_CORE 0, alarm + hard wall-clock limit per child, exit status / signal recorded), not proved",
@@ -25,7 +25,7 @@ SPEC = {
     ],
     "trusted_base": [
         "Gen/HostFns.v: per-argument conversion tables, div/rem/shift guards, percentage instruction, trap-to-panic arm, emitter-controlled list, "
-        "regenerated from lib/src/wasm/mod.rs, scanner/matches.rs, scanner/context.rs, compiler/emit.rs, modules/{math,hash/mod,string,console}.rs; "
+        "regenerated from lib/src/wasm/mod.rs, wasm/string.rs (fast-path length guards), scanner/matches.rs, scanner/context.rs, compiler/emit.rs, modules/{math,hash/mod,string,console}.rs; "
         "known_unsafe regenerated from known_findings.jsonl",
         "harness c05: child-process protocol (panic hook prints file:line, enclosing fn resolved from the source), wrapping i64 evaluation of the generated operands",
     ],
@@ -40,6 +40,11 @@ RULE = ("accepted rule sets of 1-3 rules; each rule is one expression shape whos
         "before the first, after the last, beyond the data, negative) in every ordering lo<hi, lo=hi, lo>hi: `$a in`, `#a in`, `N of ($a,$b) in (lo..hi)`, "
         "`for any i in (lo..hi) : ($a at i)`, `$a at N`, `@a[i]` / `!a[i]` with i in {0, 1, count-1, count, count+1, ..} (the distribution reports how many bounds are inverted with "
         "matches strictly between them) "
+        "and binary string operators (contains icontains startswith istartswith endswith iendswith iequals == != < > <= >= matches) over operand pairs covering the length matrix "
+        "(right empty / shorter / equal / longer; prefix, suffix, infix, case-flipped, near-miss of each other) x {ASCII, non-ASCII UTF-8, invalid UTF-8}, with operands that are "
+        "literals (folded), global variables defined before compiling (value known only at scan time) or function results (math.to_string of a run-time integer); the evidence "
+        "distribution reports the evaluation path of every case (case-sensitive bstr / ci ASCII fast path / ci to_lowercase / regexp x operand source x length relation) and the "
+        "model's verdict is compared with whether the rule matched "
         "x buffers {empty, 1 byte, small random, pattern tokens, patterns at several offsets separated by filler, dense repetitive up to 4 KiB, tiny}; each (case, mode) in a child process through Scanner::scan, "
         "Scanner::scan_file, blocks::Scanner (scan + finish) and yrx_scanner_scan, followed by a scan of `Z` on the SAME scanner. "
         "Outcome: ok / err:<kind> / panic(site, message) / abort(signal) / hard-timeout. One evaluation = one (case, mode). Distinct = distinct rule-set source. "
@@ -93,6 +98,7 @@ def run_k(run, tier, seed, drv):
 def replay(d, drv):
     case = d.get("case", d)
     rc, out, _ = drv.sh([drv.hbin("c05"), "--replay-src", case.get("rules", ""), "--replay-data", case.get("data_hex", ""),
+                         "--replay-globals", case.get("globals_hex", ""),
                          "--out", os.path.join(drv.CACHE, "cases", "C05-replay")], timeout=300)
     print(out)
     return rc
@@ -106,7 +112,8 @@ MANIFEST = {
                    "or a recorded finding. (2) The integer instructions emit.rs emits that can trap (i64.div_s, i64.rem_s, shifts) are modelled with the guards regenerated from "
                    "emit.rs (zero divisor -> undefined, divisor -1 -> `0 - lhs`, shift count compared with 64); arbitrary nested integer arithmetic over run-time values is proved "
                    "trap-free; the percentage quantifier's conversion (saturating since 28418b65; the trapping i64.trunc_f64_s is modelled with IEEE-754 SpecFloat) cannot trap. "
-                   "(3) The defects repaired so far (pat_range_match unwrap, i64::MIN \\ -1, percentage trunc, math.abs / hash / console overflow) are refuted as literal shapes, "
+                   "The binary string operators of wasm/string.rs are modelled per evaluation path; the length guards of the ASCII fast paths are regenerated from the source and the operators "
+                   "are proved panic-free for all byte strings. (3) The defects repaired so far (pat_range_match unwrap, i64::MIN \\ -1, percentage trunc, math.abs / hash / console overflow) are refuted as literal shapes, "
                    "and their reproductions stay in the harness corpus: a regression is a VIOLATION with a replay. "
                    "The model's crash / no-crash prediction is compared with the real scanner on generated accepted rule sets with boundary run-time integers, in child processes, "
                    "through in-memory, file, block mode and the C API, with a reuse scan on the same scanner."),
